@@ -15,3 +15,87 @@ Theorem C01_raw_in_region : forall flits lookup budget inc raw c w,
              wr_bytes w' = wr_bytes w ++ region_text c raw.
 Proof. exact raw_in_region. Qed.
 Print Assumptions C01_raw_in_region.
+
+(* ---- canonical integer text (strconv.AppendInt as modelled by print_Z) ---- *)
+From DT Require Import Proofs.IntText.
+
+(* the text of an integer parses back to that integer *)
+Theorem C01_int_text_roundtrip : forall z : Z, parse_Z (print_Z z) = Some z.
+Proof. exact print_parse_Z. Qed.
+Print Assumptions C01_int_text_roundtrip.
+
+(* "0" exactly for zero; otherwise '-' exactly for negatives, then a digit 1..9, then digits only *)
+Theorem C01_int_text_canonical : forall z : Z,
+  (z = 0%Z /\ print_Z z = ["0"%byte]) \/
+  (exists d r, print_Z z = (if (z <? 0)%Z then ["-"%byte] else []) ++ d :: r /\
+               is_digit19 d = true /\ forallb is_digit r = true).
+Proof. exact print_Z_canonical. Qed.
+Print Assumptions C01_int_text_canonical.
+
+(* the same as an executable check *)
+Theorem C01_int_text_canonical_b : forall z : Z, canonical_int_text (print_Z z) = true.
+Proof. exact print_Z_canonical_b. Qed.
+Print Assumptions C01_int_text_canonical_b.
+
+Example C01_int_text_ex :
+  print_Z (-1205)%Z = ["-";"1";"2";"0";"5"]%byte /\ parse_Z ["-";"1";"2";"0";"5"]%byte = Some (-1205)%Z /\
+  canonical_int_text ["0";"7"]%byte = false /\ canonical_int_text ["-";"0"]%byte = false.
+Proof. vm_compute. repeat split; reflexivity. Qed.
+
+(* ---- flat templates: text, comments and plain prints (optional prefix/suffix) ---- *)
+From DT Require Import Spec.Ast Spec.RefEval Spec.Compile Proofs.FlatProofs.
+
+(* For every flat template, every context and every healthy writer, running the compiled tree
+   (adjacent raw nodes merged) appends to the writer exactly the output of the reference
+   semantics on the abstracted store [abs c], leaves the store unchanged, keeps the writer
+   healthy, and ends with the error the reference semantics prescribes ([sig_ok]: none; or
+   ErrUnknownType for a value without text; inside a counter-loop body (chQB) also
+   ErrUnknownType where an a[i] index has no text, which the reference leaves unspecified). *)
+Theorem C01_render_items :
+  forall flits lookup budget inc rlookup rbudget rinc items c w,
+    forallb flat_item items = true -> w_fail w = None ->
+    exists c' w' eo out s,
+      run_nodes flits lookup budget inc (compile_tpl items) c w = Out c' w' eo /\
+      ref_items flits rlookup rbudget rinc items (abs c) = (out, abs c', s) /\
+      wr_bytes w' = wr_bytes w ++ out /\ w_fail w' = None /\
+      abs c' = abs c /\ sig_ok (chQB c) s eo.
+Proof. exact render_flat_items. Qed.
+Print Assumptions C01_render_items.
+
+(* outside counter-loop bodies the reference semantics is total on flat templates *)
+Theorem C01_render_items_noqb :
+  forall flits lookup budget inc rlookup rbudget rinc items c w,
+    forallb flat_item items = true -> w_fail w = None -> chQB c = false ->
+    exists c' w' eo out s,
+      run_nodes flits lookup budget inc (compile_tpl items) c w = Out c' w' eo /\
+      ref_items flits rlookup rbudget rinc items (abs c) = (out, abs c', s) /\
+      wr_bytes w' = wr_bytes w ++ out /\ w_fail w' = None /\
+      ((s = SNone /\ eo = None) \/ (exists x, s = SErr x /\ eo = Some x)).
+Proof. exact render_flat_items_noqb. Qed.
+Print Assumptions C01_render_items_noqb.
+
+(* the escapers of the bound tags are byte-wise: static text may be split or merged anywhere *)
+Theorem C01_region_text_app : forall c a b, region_text c (a ++ b) = region_text c a ++ region_text c b.
+Proof. exact region_text_app. Qed.
+Print Assumptions C01_region_text_app.
+
+(* non-vacuity: "Hi " (comment) "there " {%= user.name prefix < suffix > %} {%= n %} inside a
+   jsonquote region, with user a struct variable and n a counter: two raw items merge into one
+   node, three nodes run in five writes, and both sides give the text  Hi there <Bob>7  with the
+   '<' of the prefix escaped by the region's JSON escaper *)
+Example C01_render_items_ex :
+  let items := [AText ["H";"i";" "]%byte; AComment ["x"]%byte; AText ["t";"h";"e";"r";"e";" "]%byte;
+                APrint [] ["u";"s";"e";"r";".";"n";"a";"m";"e"]%byte [] ["<"]%byte [">"]%byte false;
+                APrint [] ["n"]%byte [] [] [] false] in
+  let c := set_flag FJson true
+             (set_vars [mkSlot ["u";"s";"e";"r"]%byte (VStruct [(["n";"a";"m";"e"]%byte, VStr ["B";"o";"b"]%byte)]) [] false 0%Z false;
+                        mkSlot ["n"]%byte VNil [] true 7%Z true] ctx_new) in
+  let expected := (["H";"i";" ";"t";"h";"e";"r";"e";" "] ++ ["\";"u";"0";"0";"3";"c"] ++ ["B";"o";"b";">";"7"])%byte in
+  forallb flat_item items = true /\
+  length (compile_tpl items) = 3%nat /\
+  (match run_nodes [] (fun _ => None) 0 (fun _ _ => None) (compile_tpl items) c (wr_new None 0) with
+   | Out _ w' None => wr_bytes w' = expected /\ w_n w' = 5%nat
+   | _ => False
+   end) /\
+  ref_items [] (fun _ => None) 0 (fun _ _ => None) items (abs c) = (expected, abs c, SNone).
+Proof. vm_compute. repeat split; reflexivity. Qed.
